@@ -414,14 +414,14 @@ mod v_iface_pollat {
         }
     }
 
-    // @harness props=C13 cfg=KI6 tier=q to=900 mem=8 unwind=18 opts=nomem covers=6 kind=finding funcs=Interface::poll_at;Slaac::poll_at;Meta::poll_at;udp::Socket::poll_at;tcp::Socket::poll_at bounds=Medium::Ip_or_Ethernet,_Config.slaac_on/off,_SLAAC_history_symbolic_(Start_|_1_|_2_|_3_unanswered_solicitations_|_router_answer_with_lifetime_0_|_router_answer_with_lifetime_1us..=65535s),_all_events_at_symbolic_instants;_one-slot_socket_set:_empty_|_UDP_socket_with_empty/non-empty_queue_|_TCP_socket_in_SYN-SENT_with_its_retransmission_timer_at_a_symbolic_instant;_neighbor_state_Active;_now_<2^50_us
+    // @harness props=C13 cfg=KI6 tier=q to=900 mem=8 unwind=18 opts=nomem covers=6 funcs=Interface::poll_at;Slaac::poll_at;Meta::poll_at;udp::Socket::poll_at;tcp::Socket::poll_at bounds=Medium::Ip_or_Ethernet,_Config.slaac_on/off,_SLAAC_history_symbolic_(Start_|_1_|_2_|_3_unanswered_solicitations_|_router_answer_with_lifetime_0_|_router_answer_with_lifetime_1us..=65535s),_all_events_at_symbolic_instants;_one-slot_socket_set:_empty_|_UDP_socket_with_empty/non-empty_queue_|_TCP_socket_in_SYN-SENT_with_its_retransmission_timer_at_a_symbolic_instant;_neighbor_state_Active;_now_<2^50_us
     #[kani::proof]
     pub(crate) fn poll_at_combination() {
         #[cfg(feature = "proto-ipv6-slaac")]
         v6::combination_body();
     }
 
-    // @harness props=C13 cfg=KI6 tier=q to=900 mem=8 unwind=18 opts=nomem covers=3 kind=finding funcs=Interface::poll_at;Slaac::poll_at;Meta::poll_at;udp::Socket::poll_at bounds=two_UDP_sockets;_5_concrete_shapes:_SLAAC_disabled_x_(idle+due,_due+idle,_idle+idle)_and_SLAAC_enabled_after_1_solicitation_x_(due+idle,_idle+idle);_Medium::Ip_or_Ethernet;_neighbor_state_Active;_instants_symbolic,_now_<2^50_us
+    // @harness props=C13 cfg=KI6 tier=q to=900 mem=8 unwind=18 opts=nomem covers=3 funcs=Interface::poll_at;Slaac::poll_at;Meta::poll_at;udp::Socket::poll_at bounds=two_UDP_sockets;_5_concrete_shapes:_SLAAC_disabled_x_(idle+due,_due+idle,_idle+idle)_and_SLAAC_enabled_after_1_solicitation_x_(due+idle,_idle+idle);_Medium::Ip_or_Ethernet;_neighbor_state_Active;_instants_symbolic,_now_<2^50_us
     #[kani::proof]
     pub(crate) fn poll_at_combination_two() {
         #[cfg(feature = "proto-ipv6-slaac")]
@@ -435,7 +435,7 @@ mod v_iface_pollat {
         v6::nonspin_body();
     }
 
-    // @harness props=C13 cfg=KI6 tier=q to=900 mem=8 unwind=18 opts=nomem covers=2 kind=finding funcs=Interface::poll;Interface::poll_at;Interface::poll_egress;Interface::ndisc_rs_egress;Interface::socket_egress bounds=same_interface_and_device_as_poll_nonspin_iface,_cut_to_2_SLAAC_histories_(Start_|_1_solicitation_sent);_deadline_taken_at_now,_real_Interface::poll_at_any_probe_instant_in_[now,deadline)
+    // @harness props=C13 cfg=KI6 tier=q to=900 mem=8 unwind=18 opts=nomem covers=2 funcs=Interface::poll;Interface::poll_at;Interface::poll_egress;Interface::ndisc_rs_egress;Interface::socket_egress bounds=same_interface_and_device_as_poll_nonspin_iface,_cut_to_2_SLAAC_histories_(Start_|_1_solicitation_sent);_deadline_taken_at_now,_real_Interface::poll_at_any_probe_instant_in_[now,deadline)
     #[kani::proof]
     pub(crate) fn poll_early_iface() {
         #[cfg(feature = "proto-ipv6-slaac")]
